@@ -16,6 +16,8 @@ import PnVerif.Model.HeaderText
                                             crash | invalid | <numHeadDIFF>,<numVarDIFF>
                                 ncmpidiff = Tools.toolDiff ncmpidiffCfg on the library reader's parse (Header.decodeWhole)
                                 leq       = Tools.logicalEqB on the library reader's parse (1/0, - if a file is invalid)
+    P <nprocs> <len>*      -> P {<start>,<count>}* | ... (one group per rank: Tools.rankBox, the part of a variable of that
+                                shape a rank of ncmpidiff compares)
     O <hexfile>            -> O <xsz> <extent> {<begin> <end>}*     (Tools.offsetsReport on Header.decodeWhole; ERR <code>)
 
   hex syntax: PnVerif/Model/HeaderText.lean
@@ -70,6 +72,13 @@ def step (cfg : Cfg) (line : String) : String :=
         | _, _ => ("invalid", "-")
       s!"D {c} {m} {l}"
     | _, _ => "bad-hex"
+  | "P" :: np :: dims =>
+    match np.toNat?, dims.mapM (·.toNat?) with
+    | some n, some shape =>
+      let groups := (List.range n).map (fun r =>
+        String.intercalate " " ((rankBox n r shape).map (fun (st, ct) => s!"{st},{ct}")))
+      "P " ++ String.intercalate " | " groups
+    | _, _ => "bad-P"
   | ["O", hx] =>
     match ofHex hx with
     | some f =>
